@@ -1,5 +1,6 @@
 \* Deep histories for seeded sampling (C19 thorough): 2 resolver fields, 2 edit records, helper {hc}, import {asfx},
-\* both resolver layouts, histories <= 5. Measured: 6 388 states, 20 943 edges, 8 s.
+\* helpers {hc, hr}, root struct customisation {rf}, both resolver layouts, histories <= 5.
+\* Measured: 20 166 states, 16 s (before root struct / hr: 6 388 states, 20 943 edges, 8 s).
 INIT Init
 NEXT Next
 CONSTANTS
